@@ -34,6 +34,10 @@ type PipeCase struct {
 	UpdatesOnly bool   `json:"uo"`
 	Writers     int    `json:"writers"`
 	Steps       int    `json:"steps"`
+	// Icpt: id interceptor of the collection ("" | lower | upper | trim); subscriber and writers then pick any of
+	// the four spellings of an item (see ids.go). Pre: the context is already cancelled when the subscription is made.
+	Icpt string `json:"icpt,omitempty"`
+	Pre  bool   `json:"pre,omitempty"`
 }
 
 func pipeScenarios(f lib.Flags) []Scenario {
@@ -49,6 +53,10 @@ func pipeScenarios(f lib.Flags) []Scenario {
 		case 2:
 			pc.Res, pc.Kind = "collection", "pullid"
 		}
+		if pc.Res == "collection" && (i/12)%2 == 1 {
+			pc.Icpt = icptNames[(i/24)%len(icptNames)]
+		}
+		pc.Pre = i%7 == 3
 		res = append(res, Scenario{Mode: "pipe", Class: "pipeline/" + pc.Res + "/" + pc.Kind, Res: pc.Res, Pipe: &pc, BoundMs: boundMs(f)})
 	}
 	return res
@@ -75,14 +83,34 @@ func runPipe(sc Scenario, drv *lib.Driver) (out Outcome) {
 		if !pc.UpdatesOnly {
 			seeds = "0"
 		}
-	} else {
-		coll = resource.NewCollection(resource.WithInitialRecord("x", wrapperspb.Int64(0)))
+	}
+	// items of the collection by base name: index k in this list, spelling v of it has the code 4k+v (ids.go)
+	items := []string{"xa"}
+	for t := 0; t < pc.Writers; t++ {
+		items = append(items, fmt.Sprintf("n%db", t))
+	}
+	xCanon := spellings4(pc.Icpt, "xa")[0]
+	r := rand.New(rand.NewSource(pc.Seed))
+	subID := xCanon
+	if value == nil {
+		copts := []resource.Option{resource.WithInitialRecord(xCanon, wrapperspb.Int64(0))}
+		if f := icptFunc(pc.Icpt); f != nil {
+			copts = append(copts, resource.WithIDInterceptor(f))
+		}
+		coll = resource.NewCollection(copts...)
 		if !pc.UpdatesOnly {
-			seeds = "1"
+			seeds = "0"
+		}
+		if pc.Icpt != "" || r.Intn(4) == 0 {
+			// any spelling; without an interceptor the other spellings are other (absent) items
+			subID = spellings4(pc.Icpt, "xa")[r.Intn(4)]
 		}
 	}
 	ctx, cancel := context.WithCancel(context.Background())
 	defer cancel()
+	if pc.Pre {
+		cancel()
+	}
 	opts := []resource.ReadOption{resource.WithBackpressure(pc.BP), resource.WithUpdatesOnly(pc.UpdatesOnly)}
 	var got []string
 	pending, sawClose := false, false
@@ -103,7 +131,7 @@ func runPipe(sc Scenario, drv *lib.Driver) (out Outcome) {
 			return fmt.Sprint(q), true
 		}
 	case pc.Kind == "pullid":
-		ch := coll.PullID(ctx, "x", opts...)
+		ch := coll.PullID(ctx, subID, opts...)
 		next = func() (string, bool) {
 			c, ok := <-ch
 			if !ok {
@@ -216,7 +244,12 @@ func runPipe(sc Scenario, drv *lib.Driver) (out Outcome) {
 	}
 
 	hasEx, exMerge, hasPid := !pc.BP, pc.Res == "collection", pc.Kind == "pullid"
-	ans, err := drv.Ask(fmt.Sprintf("pinit %v %v %v 1 %s %d", hasEx, exMerge, hasPid, seeds, pc.Writers))
+	micpt := "none"
+	if pc.Icpt != "" {
+		micpt = "fold4"
+	}
+	target, _ := idCode(pc.Icpt, items, subID)
+	ans, err := drv.Ask(fmt.Sprintf("pinit %v %v %v %s %d %s %d %v", hasEx, exMerge, hasPid, micpt, target, seeds, pc.Writers, pc.Pre))
 	if err != nil || !strings.HasPrefix(ans, "ok ") {
 		o.Ties = append(o.Ties, TieRec{Tie: tiePipe, Err: fmt.Sprintf("driver pinit: %v %s", err, ans)})
 		return
@@ -228,8 +261,7 @@ func runPipe(sc Scenario, drv *lib.Driver) (out Outcome) {
 	if !stable || !strings.Contains("|"+strings.TrimPrefix(ans, "ok ")+"|", "|"+obs+"|") {
 		agree, model, code = false, ans+" (initial state)", obs
 	}
-	r := rand.New(rand.NewSource(pc.Seed))
-	cancelled, xDeleted, nontrivial := false, false, false
+	cancelled, xDeleted, nontrivial := pc.Pre, false, pc.Pre
 	for i := 0; i < pc.Steps && agree; i++ {
 		var cands []string
 		if len(writers) < pc.Writers {
@@ -264,21 +296,36 @@ func runPipe(sc Scenario, drv *lib.Driver) (out Outcome) {
 			tag := t + 1
 			w := &pipeWriter{}
 			var do func()
+			// the id as this writer spells it: some spelling of the watched item or of the writer's own item.
+			// The model gets the spelled id (as a code) and applies its interceptor itself.
+			xid := xCanon
+			if value == nil && (pc.Icpt != "" || r.Intn(3) == 0) {
+				xid = spellings4(pc.Icpt, "xa")[r.Intn(4)]
+			}
+			isX := canon(pc.Icpt, xid) == xCanon // else (no interceptor) another item that merely looks similar
+			xcode, _ := idCode(pc.Icpt, items, xid)
 			switch {
 			case value != nil:
 				op = fmt.Sprintf("write %d 0 false %d", t, tag)
 				do = func() { value.Set(val(t, tag)) }
-			case !xDeleted && r.Intn(3) == 0:
-				op = fmt.Sprintf("write %d 1 true 0", t)
+			case isX && !xDeleted && r.Intn(3) == 0:
+				op = fmt.Sprintf("write %d %d true 0", t, xcode)
 				xDeleted = true
 				nontrivial = true
-				do = func() { coll.Delete("x") }
-			case !xDeleted && r.Intn(2) == 0:
-				op = fmt.Sprintf("write %d 1 false %d", t, tag)
-				do = func() { coll.Update("x", val(t, tag)) }
+				o.count("pipe:delete-spelling:" + spellingKind(xid, xCanon, subID))
+				do = func() { coll.Delete(xid) }
+			case (!isX || !xDeleted) && r.Intn(2) == 0:
+				op = fmt.Sprintf("write %d %d false %d", t, xcode, tag)
+				do = func() { coll.Update(xid, val(t, tag), resource.WithCreateIfAbsent()) }
 			default:
-				op = fmt.Sprintf("write %d %d false %d", t, 10+t, tag)
-				do = func() { coll.Update(fmt.Sprintf("n%d", t), val(t, tag), resource.WithCreateIfAbsent()) }
+				own := spellings4(pc.Icpt, items[t+1])
+				oid := own[0]
+				if pc.Icpt != "" {
+					oid = own[r.Intn(4)]
+				}
+				ocode, _ := idCode(pc.Icpt, items, oid)
+				op = fmt.Sprintf("write %d %d false %d", t, ocode, tag)
+				do = func() { coll.Update(oid, val(t, tag), resource.WithCreateIfAbsent()) }
 			}
 			started := make(chan struct{})
 			go func() {
@@ -321,6 +368,12 @@ func runPipe(sc Scenario, drv *lib.Driver) (out Outcome) {
 		model, code = "ok "+obs, "ok "+obs
 	}
 	shape := fmt.Sprintf("%s/%s/bp=%v/uo=%v", pc.Res, pc.Kind, pc.BP, pc.UpdatesOnly)
+	if pc.Icpt != "" {
+		shape += "/icpt"
+	}
+	if pc.Pre {
+		shape += "/pre-cancelled"
+	}
 	o.count("pipe:shape:" + shape)
 	o.Ties = append(o.Ties, TieRec{Tie: tiePipe, Key: shape + ":" + strings.Join(done, "/"), Nontrivial: nontrivial, Model: model, Code: code})
 	// end of scenario: cancel, let the consumer drain, and the property itself: everything is gone
@@ -353,4 +406,16 @@ func runPipe(sc Scenario, drv *lib.Driver) (out Outcome) {
 		}
 	}
 	return out
+}
+
+// spellingKind: how the id given to Delete relates to the stored id and to the id the subscriber used
+func spellingKind(del, stored, sub string) string {
+	k := "canonical"
+	if del != stored {
+		k = "non-canonical"
+	}
+	if del == sub {
+		return k + "/same-as-subscriber"
+	}
+	return k + "/other-than-subscriber"
 }
